@@ -1,21 +1,17 @@
 import SqlfluffVerif.Driver.Proto
-import SqlfluffVerif.Model.Pos
-open SqlfluffVerif SqlfluffVerif.Proto
+import SqlfluffVerif.Driver.Pos
+import SqlfluffVerif.Driver.Patch
+open SqlfluffVerif SqlfluffVerif.Proto SqlfluffVerif.Driver
+
+def handlers : List (List String → Option String) := [handlePos, handlePatch]
 
 def handle (toks : List String) : String :=
   match toks with
   | ["echo", s] => showNatList (natList s)
-  | ["pos.linepos", s, p] =>
-      let r := Pos.linePos (natList s) p.toNat!
-      s!"{r.1} {r.2}"
-  | ["pos.nls", s] => showNatList (Pos.newlineIndices (natList s))
-  | ["pos.infer", raw, l, c] =>
-      let r := Pos.inferNext (natList raw) l.toNat! c.toNat!
-      s!"{r.1} {r.2}"
-  | ["pos.walk", s, p] =>
-      let r := Pos.walk ((natList s).take p.toNat!) (1, 1)
-      s!"{r.1} {r.2}"
-  | _ => "err:bad-op"
+  | _ =>
+    match handlers.findSome? (fun h => h toks) with
+    | some r => r
+    | none => "err:bad-op"
 
 partial def loop (h : IO.FS.Stream) (out : IO.FS.Stream) : IO Unit := do
   let line ← h.getLine
